@@ -41,12 +41,12 @@ ASSUMPTIONS = [
 FLOORS = {"quick": {"compared": 15000, "compared_ok": 5000,
                     "compared_reject": 2000, "logger_compared": 300,
                     "mapping_compared": 300},
-          "thorough": {"compared": 400000, "compared_ok": 150000,
-                       "compared_reject": 100000, "logger_compared": 20000,
-                       "mapping_compared": 20000}}
-N_MODELS = {"quick": 800, "thorough": 10000}
+          "thorough": {"compared": 1500000, "compared_ok": 500000,
+                       "compared_reject": 800000, "logger_compared": 100000,
+                       "mapping_compared": 100000}}
+N_MODELS = {"quick": 800, "thorough": 40000}
 TEXTS = {"quick": 8, "thorough": 20}
-N_COMPONENT = {"quick": 800, "thorough": 40000}
+N_COMPONENT = {"quick": 800, "thorough": 160000}
 
 LOGGER_SCHEMA = """<schema>
   <import package='ZConfig.components.logger'/>
